@@ -91,367 +91,372 @@ def run(ck):
                  "'_' need _reserved, and no _reserved creation site can yield an '_ext_' name",
                  'M0', 6)
 
-    # ------------------------------------------------------------------ R14.1
-    send = ext.methods.get('send')
-    ck.need(R1, send is not None, "ExtEvent.send not found")
-    cfg = ck.cfg(send.fid, 'M0')
-    deliveries = nodes_calling(cfg, 'event')
-    ck.ob(R1, f"{send.fid} :: single delivery site", len(deliveries) == 1,
-          f"{len(deliveries)} call(s) of <dest>.event in ExtEvent.send (exactly one expected)",
-          send, send.node)
-    ck.need(R1, deliveries, "no delivery site in ExtEvent.send")
+    with ck.section('R14.1'):
+        # ------------------------------------------------------------------ R14.1
+        send = ext.methods.get('send')
+        ck.need(R1, send is not None, "ExtEvent.send not found")
+        cfg = ck.cfg(send.fid, 'M0')
+        deliveries = nodes_calling(cfg, 'event')
+        ck.ob(R1, f"{send.fid} :: single delivery site", len(deliveries) == 1,
+              f"{len(deliveries)} call(s) of <dest>.event in ExtEvent.send (exactly one expected)",
+              send, send.node)
+        ck.need(R1, deliveries, "no delivery site in ExtEvent.send")
 
-    def ready_fact(facts, pol):
-        for e, p in facts:
-            t, cp = canon_fact(e, p)
-            if t.endswith('.is_ready()') and cp == pol:
-                return True
-        return False
-    gate_tests = nodes_where(cfg, lambda n: n.kind == 'test' and 'is_ready()' in norm(n.ast))
-    for d in deliveries:
-        ok = ready_fact(cfg.guards(d), True)
-        ck.ob(R1, f"{send.fid} :: {norm1(d.ast)} :: gate", ok,
-              "delivery happens only under is_ready() == True" if ok else
-              "the delivery call is not dominated by the true outcome of <circuit>.is_ready()",
-              send, d.ast)
-    raises = nodes_where(cfg, lambda n: isinstance(n.ast, ast.Raise)
-                         and n.kinds == {'N:EdzedInvalidState'} and ready_fact(cfg.guards(n), False),
-                         kinds=('stmt',))
-    ck.ob(R1, f"{send.fid} :: not-ready branch raises", bool(raises),
-          "the not-ready branch raises EdzedInvalidState" if raises else
-          "no `raise EdzedInvalidState` under is_ready() == False", send, send.node)
-    # the gate is the circuit's: get_circuit().is_ready() or self._dest.circuit.is_ready()
-    for g in gate_tests:
-        rcv = [recv(c) for c in node_calls(g, 'is_ready')]
-        ok = all(r in ('simulator.get_circuit()', 'self._dest.circuit', 'get_circuit()')
-                 for r in rcv) and bool(rcv)
-        ck.ob(R1, f"{send.fid} :: gate receiver", ok,
-              f"is_ready() is asked of {rcv}", send, g.ast)
-    # no effect before the gate
-    effectful = nodes_where(cfg, lambda n: n.kind == 'stmt' and (
-        any(True for _ in subscript_writes(n.ast)) or
-        any(call_name(c) not in ('get_circuit', 'is_ready', 'isinstance') for c in node_calls(n))
-        ) and not isinstance(n.ast, ast.Raise) and not isinstance(n.ast, ast.Expr)
-        or (n.kind == 'stmt' and isinstance(n.ast, ast.Expr) and
-            not isinstance(n.ast.value, ast.Constant)))
-    bad = [n for n in effectful if gate_tests and not any(cfg.dominates(g, n) for g in gate_tests)]
-    ck.ob(R1, f"{send.fid} :: nothing before the gate", bool(gate_tests) and not bad,
-          "every effectful statement is dominated by the gate test" if gate_tests and not bad else
-          f"statement(s) run before the is_ready() gate: {[norm1(n.ast) for n in bad]}",
-          send, bad[0].ast if bad else send.node)
-    rets = return_nodes(cfg)
-    dcall = node_calls(deliveries[0], 'event')[0]
-    ok = bool(rets) and all(r.ast.value is not None and (
-        any(x is dcall for x in walk_shallow(r.ast.value)) and isinstance(r.ast.value, ast.Call)
-        and call_name(r.ast.value) == 'event') for r in rets)
-    if not ok and rets:
+        def ready_fact(facts, pol):
+            for e, p in facts:
+                t, cp = canon_fact(e, p)
+                if t.endswith('.is_ready()') and cp == pol:
+                    return True
+            return False
+        gate_tests = nodes_where(cfg, lambda n: n.kind == 'test' and 'is_ready()' in norm(n.ast))
+        for d in deliveries:
+            ok = ready_fact(cfg.guards(d), True)
+            ck.ob(R1, f"{send.fid} :: {norm1(d.ast)} :: gate", ok,
+                  "delivery happens only under is_ready() == True" if ok else
+                  "the delivery call is not dominated by the true outcome of <circuit>.is_ready()",
+                  send, d.ast)
+        raises = nodes_where(cfg, lambda n: isinstance(n.ast, ast.Raise)
+                             and n.kinds == {'N:EdzedInvalidState'} and ready_fact(cfg.guards(n), False),
+                             kinds=('stmt',))
+        ck.ob(R1, f"{send.fid} :: not-ready branch raises", bool(raises),
+              "the not-ready branch raises EdzedInvalidState" if raises else
+              "no `raise EdzedInvalidState` under is_ready() == False", send, send.node)
+        # the gate is the circuit's: get_circuit().is_ready() or self._dest.circuit.is_ready()
+        for g in gate_tests:
+            rcv = [recv(c) for c in node_calls(g, 'is_ready')]
+            ok = all(r in ('simulator.get_circuit()', 'self._dest.circuit', 'get_circuit()')
+                     for r in rcv) and bool(rcv)
+            ck.ob(R1, f"{send.fid} :: gate receiver", ok,
+                  f"is_ready() is asked of {rcv}", send, g.ast)
+        # no effect before the gate
+        effectful = nodes_where(cfg, lambda n: n.kind == 'stmt' and (
+            any(True for _ in subscript_writes(n.ast)) or
+            any(call_name(c) not in ('get_circuit', 'is_ready', 'isinstance') for c in node_calls(n))
+            ) and not isinstance(n.ast, ast.Raise) and not isinstance(n.ast, ast.Expr)
+            or (n.kind == 'stmt' and isinstance(n.ast, ast.Expr) and
+                not isinstance(n.ast.value, ast.Constant)))
+        bad = [n for n in effectful if gate_tests and not any(cfg.dominates(g, n) for g in gate_tests)]
+        ck.ob(R1, f"{send.fid} :: nothing before the gate", bool(gate_tests) and not bad,
+              "every effectful statement is dominated by the gate test" if gate_tests and not bad else
+              f"statement(s) run before the is_ready() gate: {[norm1(n.ast) for n in bad]}",
+              send, bad[0].ast if bad else send.node)
+        rets = return_nodes(cfg)
+        dcall = node_calls(deliveries[0], 'event')[0]
+        ok = bool(rets) and all(r.ast.value is not None and (
+            any(x is dcall for x in walk_shallow(r.ast.value)) and isinstance(r.ast.value, ast.Call)
+            and call_name(r.ast.value) == 'event') for r in rets)
+        if not ok and rets:
+            rd = ck.rdefs(send.fid, 'M0')
+            ok = all(isinstance(r.ast.value, ast.Name) and
+                     all(d is deliveries[0] for d in rd.defs_at(r, r.ast.value.id))
+                     and rd.defs_at(r, r.ast.value.id) for r in rets)
+        ck.ob(R1, f"{send.fid} :: returns the handler's value", ok,
+              "send() returns the value of the delivery call" if ok else
+              f"send() does not return the delivery call's value (returns "
+              f"{[norm(r.ast.value) for r in rets]})", send, rets[0].ast if rets else send.node)
+
+        isr = prog.resolve_method(prog.cls('simulator:Circuit'), 'is_ready')
+        ck.need(R1, isr is not None, "Circuit.is_ready not found")
+        g2 = ck.cfg(isr.fid, 'M0')
+        rets2 = return_nodes(g2)
+        want = {canon_fact(ast.parse('self._simtask is not None', mode='eval').body, True),
+                canon_fact(ast.parse('self._error is None', mode='eval').body, True)}
+        got = set()
+        shape_ok = len(rets2) == 1 and isinstance(rets2[0].ast.value, ast.BoolOp) and \
+            isinstance(rets2[0].ast.value.op, ast.And)
+        if shape_ok:
+            got = {canon_fact(v, True) for v in rets2[0].ast.value.values}
+        ck.ob(R1, f"{isr.fid} :: conjunction", shape_ok and got == want,
+              "is_ready() == (_simtask is not None and _error is None)" if shape_ok and got == want
+              else f"is_ready() returns `{norm(rets2[0].ast.value) if rets2 else None}`; expected the "
+              f"conjunction of 'simulation task exists' and 'error slot empty'", isr, isr.node)
+
+        # "while the circuit is shutting down it raises": shutdown() makes is_ready() false at once,
+        # i.e. it records the stop in the error slot (through abort()) before its first await; merely
+        # requesting the cancellation of the simulation task leaves a window in which the gate is open
+        sh = prog.func('simulator:Circuit.shutdown')
+        gsh = ck.cfg(sh.fid, 'M0')
+        awaits = nodes_where(gsh, lambda n: any(isinstance(x, ast.Await) and '_simtask' in norm(x.value)
+                                                for x in walk_shallow(n.ast)))
+        aborts = nodes_where(gsh, lambda n: any(call_name(c) == 'abort' and recv(c) == 'self' for c in node_calls(n)))
+        ab = prog.func('simulator:Circuit.abort')
+        gab = ck.cfg(ab.fid, 'M0')
+        ew = [w for w in nodes_where(gab, lambda n: n.kind == 'stmt' and isinstance(n.ast, ast.Assign) and
+                                     any(norm(t) == 'self._error' for t in n.ast.targets))]
+        cn = nodes_where(gab, lambda n: any(call_name(c) == 'cancel' for c in node_calls(n)))
+        ok = bool(awaits) and bool(aborts) and all(any(gsh.dominates(a, w) for a in aborts) for w in awaits) \
+            and bool(ew) and all(any(gab.dominates(e_, c_) for e_ in ew) for c_ in cn)
+        ck.ob(R1, f"{sh.fid} :: the stop is recorded before shutdown() first waits", ok,
+              "self.abort(...) (which writes the error slot before it cancels) dominates the await of "
+              "the simulation task: is_ready() is false from the moment shutdown is requested" if ok else
+              "shutdown() waits for the simulation task without having recorded the stop in the error "
+              "slot: until the cancellation is delivered is_ready() stays true and ExtEvent.send() "
+              "delivers into a circuit that is shutting down", sh, awaits[0].ast if awaits else sh.node)
+
+    with ck.section('R14.1b'):
+        # ------------------------------------------------------------------ R14.1b
+        init = ext.methods.get('__init__')
+        ck.need(R1b, init is not None, "ExtEvent.__init__ not found")
+        gi = ck.cfg(init.fid, 'M0')
+        iraises = nodes_where(gi, lambda n: isinstance(n.ast, ast.Raise), kinds=('stmt',))
+
+        def raise_under(text, pol):
+            return any(gi.has_guard(r, text, pol) for r in iraises)
+        dest_w = nodes_where(gi, lambda n: isinstance(n.ast, ast.Assign) and
+                             any(norm(t) == 'self._dest' for t in n.ast.targets))
+        ck.need(R1b, dest_w, "ExtEvent.__init__ does not store self._dest")
+        dvar = norm(dest_w[0].ast.value)
+        ok = raise_under(f'isinstance({dvar}, SBlock)', False) and \
+            gi.has_guard(dest_w[0], f'isinstance({dvar}, SBlock)', True)
+        ck.ob(R1b, f"{init.fid} :: destination kind", ok,
+              "a destination that is not an SBlock is refused before it is stored" if ok else
+              f"self._dest = {dvar} is not dominated by the SBlock type check", init, dest_w[0].ast)
+        finds = nodes_calling(gi, 'findblock')
+        ck.ob(R1b, f"{init.fid} :: name resolved at once", bool(finds),
+              "a destination given by name is resolved with findblock() in the constructor"
+              if finds else "no immediate findblock() resolution", init, init.node)
+        ok = raise_under('isinstance(source, str)', False) and \
+            (raise_under('isinstance(etype, str)', False) or raise_under('not isinstance(etype, str) or not etype', True))
+        ck.ob(R1b, f"{init.fid} :: etype/source type checks", ok,
+              "non-string event types and sources are refused" if ok else
+              "missing type check of etype or source", init, init.node)
+
+    with ck.section('R14.2'):
+        # ------------------------------------------------------------------ R14.2
+        src_w = nodes_where(gi, lambda n: isinstance(n.ast, ast.Assign) and
+                            any(norm(t) == 'self._source' for t in n.ast.targets))
+        ck.need(R2, src_w, "ExtEvent.__init__ does not store self._source")
+        attr_ok = True
+        for w in src_w:
+            facts = set()
+            for e, p in gi.guards(w):
+                sw = _is_startswith(e, PREFIX)
+                if sw and p:
+                    facts.add(sw[0])
+            okw = _prefixed(w.ast.value, facts, False)
+            attr_ok = attr_ok and okw
+            ck.ob(R2, f"{init.fid} :: {norm1(w.ast)}", okw,
+                  "the stored default source always has the prefix" if okw else
+                  f"`{norm(w.ast.value)}` is not guaranteed to begin with '{PREFIX}'", init, w.ast)
+        # every other writer of _source
+        for fi in prog.pkg_funcs():
+            if fi is init:
+                continue
+            for n in own_nodes(fi.node):
+                if isinstance(n, ast.Assign) and any(isinstance(t, ast.Attribute) and t.attr == '_source'
+                                                     and fi.cls is ext for t in n.targets):
+                    attr_ok = False
+                    ck.ob(R2, f"{fi.fid} :: {norm1(n)}", False,
+                          "self._source of an ExtEvent is rewritten outside the constructor", fi, n)
+
+        # forward dataflow over send(): state of data['source'] in {P, U}
         rd = ck.rdefs(send.fid, 'M0')
-        ok = all(isinstance(r.ast.value, ast.Name) and
-                 all(d is deliveries[0] for d in rd.defs_at(r, r.ast.value.id))
-                 and rd.defs_at(r, r.ast.value.id) for r in rets)
-    ck.ob(R1, f"{send.fid} :: returns the handler's value", ok,
-          "send() returns the value of the delivery call" if ok else
-          f"send() does not return the delivery call's value (returns "
-          f"{[norm(r.ast.value) for r in rets]})", send, rets[0].ast if rets else send.node)
+        reach = cfg.reachable()
+        state_out = {}
 
-    isr = prog.resolve_method(prog.cls('simulator:Circuit'), 'is_ready')
-    ck.need(R1, isr is not None, "Circuit.is_ready not found")
-    g2 = ck.cfg(isr.fid, 'M0')
-    rets2 = return_nodes(g2)
-    want = {canon_fact(ast.parse('self._simtask is not None', mode='eval').body, True),
-            canon_fact(ast.parse('self._error is None', mode='eval').body, True)}
-    got = set()
-    shape_ok = len(rets2) == 1 and isinstance(rets2[0].ast.value, ast.BoolOp) and \
-        isinstance(rets2[0].ast.value.op, ast.And)
-    if shape_ok:
-        got = {canon_fact(v, True) for v in rets2[0].ast.value.values}
-    ck.ob(R1, f"{isr.fid} :: conjunction", shape_ok and got == want,
-          "is_ready() == (_simtask is not None and _error is None)" if shape_ok and got == want
-          else f"is_ready() returns `{norm(rets2[0].ast.value) if rets2 else None}`; expected the "
-          f"conjunction of 'simulation task exists' and 'error slot empty'", isr, isr.node)
-
-    # "while the circuit is shutting down it raises": shutdown() makes is_ready() false at once,
-    # i.e. it records the stop in the error slot (through abort()) before its first await; merely
-    # requesting the cancellation of the simulation task leaves a window in which the gate is open
-    sh = prog.func('simulator:Circuit.shutdown')
-    gsh = ck.cfg(sh.fid, 'M0')
-    awaits = nodes_where(gsh, lambda n: any(isinstance(x, ast.Await) and '_simtask' in norm(x.value)
-                                            for x in walk_shallow(n.ast)))
-    aborts = nodes_where(gsh, lambda n: any(call_name(c) == 'abort' and recv(c) == 'self' for c in node_calls(n)))
-    ab = prog.func('simulator:Circuit.abort')
-    gab = ck.cfg(ab.fid, 'M0')
-    ew = [w for w in nodes_where(gab, lambda n: n.kind == 'stmt' and isinstance(n.ast, ast.Assign) and
-                                 any(norm(t) == 'self._error' for t in n.ast.targets))]
-    cn = nodes_where(gab, lambda n: any(call_name(c) == 'cancel' for c in node_calls(n)))
-    ok = bool(awaits) and bool(aborts) and all(any(gsh.dominates(a, w) for a in aborts) for w in awaits) \
-        and bool(ew) and all(any(gab.dominates(e_, c_) for e_ in ew) for c_ in cn)
-    ck.ob(R1, f"{sh.fid} :: the stop is recorded before shutdown() first waits", ok,
-          "self.abort(...) (which writes the error slot before it cancels) dominates the await of "
-          "the simulation task: is_ready() is false from the moment shutdown is requested" if ok else
-          "shutdown() waits for the simulation task without having recorded the stop in the error "
-          "slot: until the cancellation is delivered is_ready() stays true and ExtEvent.send() "
-          "delivers into a circuit that is shutting down", sh, awaits[0].ast if awaits else sh.node)
-
-    # ------------------------------------------------------------------ R14.1b
-    init = ext.methods.get('__init__')
-    ck.need(R1b, init is not None, "ExtEvent.__init__ not found")
-    gi = ck.cfg(init.fid, 'M0')
-    iraises = nodes_where(gi, lambda n: isinstance(n.ast, ast.Raise), kinds=('stmt',))
-
-    def raise_under(text, pol):
-        return any(gi.has_guard(r, text, pol) for r in iraises)
-    dest_w = nodes_where(gi, lambda n: isinstance(n.ast, ast.Assign) and
-                         any(norm(t) == 'self._dest' for t in n.ast.targets))
-    ck.need(R1b, dest_w, "ExtEvent.__init__ does not store self._dest")
-    dvar = norm(dest_w[0].ast.value)
-    ok = raise_under(f'isinstance({dvar}, SBlock)', False) and \
-        gi.has_guard(dest_w[0], f'isinstance({dvar}, SBlock)', True)
-    ck.ob(R1b, f"{init.fid} :: destination kind", ok,
-          "a destination that is not an SBlock is refused before it is stored" if ok else
-          f"self._dest = {dvar} is not dominated by the SBlock type check", init, dest_w[0].ast)
-    finds = nodes_calling(gi, 'findblock')
-    ck.ob(R1b, f"{init.fid} :: name resolved at once", bool(finds),
-          "a destination given by name is resolved with findblock() in the constructor"
-          if finds else "no immediate findblock() resolution", init, init.node)
-    ok = raise_under('isinstance(source, str)', False) and \
-        (raise_under('isinstance(etype, str)', False) or raise_under('not isinstance(etype, str) or not etype', True))
-    ck.ob(R1b, f"{init.fid} :: etype/source type checks", ok,
-          "non-string event types and sources are refused" if ok else
-          "missing type check of etype or source", init, init.node)
-
-    # ------------------------------------------------------------------ R14.2
-    src_w = nodes_where(gi, lambda n: isinstance(n.ast, ast.Assign) and
-                        any(norm(t) == 'self._source' for t in n.ast.targets))
-    ck.need(R2, src_w, "ExtEvent.__init__ does not store self._source")
-    attr_ok = True
-    for w in src_w:
-        facts = set()
-        for e, p in gi.guards(w):
-            sw = _is_startswith(e, PREFIX)
-            if sw and p:
-                facts.add(sw[0])
-        okw = _prefixed(w.ast.value, facts, False)
-        attr_ok = attr_ok and okw
-        ck.ob(R2, f"{init.fid} :: {norm1(w.ast)}", okw,
-              "the stored default source always has the prefix" if okw else
-              f"`{norm(w.ast.value)}` is not guaranteed to begin with '{PREFIX}'", init, w.ast)
-    # every other writer of _source
-    for fi in prog.pkg_funcs():
-        if fi is init:
-            continue
-        for n in own_nodes(fi.node):
-            if isinstance(n, ast.Assign) and any(isinstance(t, ast.Attribute) and t.attr == '_source'
-                                                 and fi.cls is ext for t in n.targets):
-                attr_ok = False
-                ck.ob(R2, f"{fi.fid} :: {norm1(n)}", False,
-                      "self._source of an ExtEvent is rewritten outside the constructor", fi, n)
-
-    # forward dataflow over send(): state of data['source'] in {P, U}
-    rd = ck.rdefs(send.fid, 'M0')
-    reach = cfg.reachable()
-    state_out = {}
-
-    def transfer(n, st):
-        # branch nodes: startswith test on an alias of data['source']
-        if n.kind == 'branch':
-            t = n.test.ast
-            pol = n.polarity
-            while isinstance(t, ast.UnaryOp) and isinstance(t.op, ast.Not):
-                t = t.operand
-                pol = not pol
-            sw = _is_startswith(t, PREFIX)
-            if sw and pol:
-                subj = sw[0]
-                if subj == "data['source']":
-                    return 'P'
-                vals = rd.value_exprs(n.test, subj) if subj.isidentifier() else []
-                if vals and all(not isinstance(v, str) and norm(v) == "data['source']" for v in vals):
-                    return 'P'
-            return st
-        if n.kind != 'stmt' or n.ast is None:
-            return st
-        a = n.ast
-        for tgt, kind, stmt in subscript_writes(a):
-            if norm(tgt.value) == 'data':
-                if is_const(tgt.slice, 'source'):
-                    if kind == 'assign' and isinstance(stmt, ast.Assign):
-                        facts = set()
-                        for e, p in cfg.guards(n):
-                            sw = _is_startswith(e, PREFIX)
-                            if sw and p:
-                                facts.add(sw[0])
-                        return 'P' if _prefixed(stmt.value, facts, attr_ok) else 'U'
-                    return 'U'
-                if not isinstance(tgt.slice, ast.Constant):
-                    return 'U'      # computed key may be 'source'
-        if isinstance(a, ast.Assign) and any(isinstance(t, ast.Name) and t.id == 'data'
-                                             for t in a.targets):
-            return 'U'
-        for c in node_calls(n):
-            if isinstance(c.func, ast.Attribute) and recv(c) == 'data' and \
-                    c.func.attr in ('update', 'pop', 'clear', 'setdefault', 'popitem', '__setitem__'):
+        def transfer(n, st):
+            # branch nodes: startswith test on an alias of data['source']
+            if n.kind == 'branch':
+                t = n.test.ast
+                pol = n.polarity
+                while isinstance(t, ast.UnaryOp) and isinstance(t.op, ast.Not):
+                    t = t.operand
+                    pol = not pol
+                sw = _is_startswith(t, PREFIX)
+                if sw and pol:
+                    subj = sw[0]
+                    if subj == "data['source']":
+                        return 'P'
+                    vals = rd.value_exprs(n.test, subj) if subj.isidentifier() else []
+                    if vals and all(not isinstance(v, str) and norm(v) == "data['source']" for v in vals):
+                        return 'P'
+                return st
+            if n.kind != 'stmt' or n.ast is None:
+                return st
+            a = n.ast
+            for tgt, kind, stmt in subscript_writes(a):
+                if norm(tgt.value) == 'data':
+                    if is_const(tgt.slice, 'source'):
+                        if kind == 'assign' and isinstance(stmt, ast.Assign):
+                            facts = set()
+                            for e, p in cfg.guards(n):
+                                sw = _is_startswith(e, PREFIX)
+                                if sw and p:
+                                    facts.add(sw[0])
+                            return 'P' if _prefixed(stmt.value, facts, attr_ok) else 'U'
+                        return 'U'
+                    if not isinstance(tgt.slice, ast.Constant):
+                        return 'U'      # computed key may be 'source'
+            if isinstance(a, ast.Assign) and any(isinstance(t, ast.Name) and t.id == 'data'
+                                                 for t in a.targets):
                 return 'U'
-        return st
+            for c in node_calls(n):
+                if isinstance(c.func, ast.Attribute) and recv(c) == 'data' and \
+                        c.func.attr in ('update', 'pop', 'clear', 'setdefault', 'popitem', '__setitem__'):
+                    return 'U'
+            return st
 
-    order = sorted(reach)
-    state_in = {i: None for i in order}
-    state_in[cfg.entry.id] = 'U'
-    changed = True
-    while changed:
-        changed = False
-        for i in order:
-            preds = [state_out.get(p) for p, _ in cfg.pred[i] if p in reach]
-            preds = [p for p in preds if p is not None]
-            if i == cfg.entry.id:
-                cur = 'U'
-            elif not preds:
-                continue
-            else:
-                cur = 'P' if all(p == 'P' for p in preds) else 'U'
-            out = transfer(cfg.nodes[i], cur)
-            if state_in[i] != cur or state_out.get(i) != out:
-                state_in[i] = cur
-                state_out[i] = out
-                changed = True
-    for d in deliveries:
-        st = state_in.get(d.id)
-        wit = None
-        if st != 'P':
-            # witness: a path to the delivery along U states
-            wit = cfg.path_avoiding(cfg.entry, [d],
-                                    avoid=[cfg.nodes[i] for i in order if state_out.get(i) == 'P'
-                                           and i != d.id])
-        ck.ob(R2, f"{send.fid} :: prefix at delivery", st == 'P',
-              "data['source'] begins with '_ext_' on every path reaching the delivery"
-              if st == 'P' else
-              "a path reaches the delivery with a data['source'] that is not known to carry the "
-              "'_ext_' prefix", send, d.ast, witness=path_witness(cfg, wit))
-    lits = []
-    for fi in (init, send):
-        for x in own_nodes(fi.node):
-            if isinstance(x, ast.Constant) and isinstance(x.value, str) and x.value.startswith('_ext') \
-                    and len(x.value) <= 8:
-                lits.append(x.value)
-        for dflt in fi.node.args.defaults + fi.node.args.kw_defaults:
-            pass
-    ok = len(lits) >= 4 and set(lits) == {PREFIX}
-    ck.ob(R2, f"{EXT} :: prefix literal", ok,
-          f"{len(lits)} occurrences, all equal to '{PREFIX}'" if ok else
-          f"prefix literals differ or are missing: {sorted(set(lits))} ({len(lits)} occurrences)",
-          send, send.node)
+        order = sorted(reach)
+        state_in = {i: None for i in order}
+        state_in[cfg.entry.id] = 'U'
+        changed = True
+        while changed:
+            changed = False
+            for i in order:
+                preds = [state_out.get(p) for p, _ in cfg.pred[i] if p in reach]
+                preds = [p for p in preds if p is not None]
+                if i == cfg.entry.id:
+                    cur = 'U'
+                elif not preds:
+                    continue
+                else:
+                    cur = 'P' if all(p == 'P' for p in preds) else 'U'
+                out = transfer(cfg.nodes[i], cur)
+                if state_in[i] != cur or state_out.get(i) != out:
+                    state_in[i] = cur
+                    state_out[i] = out
+                    changed = True
+        for d in deliveries:
+            st = state_in.get(d.id)
+            wit = None
+            if st != 'P':
+                # witness: a path to the delivery along U states
+                wit = cfg.path_avoiding(cfg.entry, [d],
+                                        avoid=[cfg.nodes[i] for i in order if state_out.get(i) == 'P'
+                                               and i != d.id])
+            ck.ob(R2, f"{send.fid} :: prefix at delivery", st == 'P',
+                  "data['source'] begins with '_ext_' on every path reaching the delivery"
+                  if st == 'P' else
+                  "a path reaches the delivery with a data['source'] that is not known to carry the "
+                  "'_ext_' prefix", send, d.ast, witness=path_witness(cfg, wit))
+        lits = []
+        for fi in (init, send):
+            for x in own_nodes(fi.node):
+                if isinstance(x, ast.Constant) and isinstance(x.value, str) and x.value.startswith('_ext') \
+                        and len(x.value) <= 8:
+                    lits.append(x.value)
+            for dflt in fi.node.args.defaults + fi.node.args.kw_defaults:
+                pass
+        ok = len(lits) >= 4 and set(lits) == {PREFIX}
+        ck.ob(R2, f"{EXT} :: prefix literal", ok,
+              f"{len(lits)} occurrences, all equal to '{PREFIX}'" if ok else
+              f"prefix literals differ or are missing: {sorted(set(lits))} ({len(lits)} occurrences)",
+              send, send.node)
 
-    # ------------------------------------------------------------------ R14.2b
-    keys_ok = True
-    bad_keys = []
-    val_w = []
-    for n in nodes_where(cfg, lambda n: n.kind == 'stmt'):
-        for tgt, kind, stmt in subscript_writes(n.ast):
-            if norm(tgt.value) == 'data':
-                if kind != 'assign' or not isinstance(tgt.slice, ast.Constant) or \
-                        tgt.slice.value not in ('value', 'source'):
+    with ck.section('R14.2b'):
+        # ------------------------------------------------------------------ R14.2b
+        keys_ok = True
+        bad_keys = []
+        val_w = []
+        for n in nodes_where(cfg, lambda n: n.kind == 'stmt'):
+            for tgt, kind, stmt in subscript_writes(n.ast):
+                if norm(tgt.value) == 'data':
+                    if kind != 'assign' or not isinstance(tgt.slice, ast.Constant) or \
+                            tgt.slice.value not in ('value', 'source'):
+                        keys_ok = False
+                        bad_keys.append(norm1(stmt))
+                    elif tgt.slice.value == 'value':
+                        val_w.append(n)
+            for c in node_calls(n):
+                if isinstance(c.func, ast.Attribute) and recv(c) == 'data' and \
+                        c.func.attr in ('update', 'pop', 'clear', 'setdefault', 'popitem'):
                     keys_ok = False
-                    bad_keys.append(norm1(stmt))
-                elif tgt.slice.value == 'value':
-                    val_w.append(n)
-        for c in node_calls(n):
-            if isinstance(c.func, ast.Attribute) and recv(c) == 'data' and \
-                    c.func.attr in ('update', 'pop', 'clear', 'setdefault', 'popitem'):
-                keys_ok = False
-                bad_keys.append(norm1(n.ast))
-    ck.ob(R2b, f"{send.fid} :: keys written", keys_ok,
-          "only data['value'] and data['source'] are written; nothing is removed" if keys_ok else
-          f"other data items are modified: {bad_keys}", send, send.node)
-    okv = len(val_w) == 1 and isinstance(val_w[0].ast, ast.Assign) and \
-        norm(val_w[0].ast.value) == 'value' and cfg.has_guard(val_w[0], 'value is UNDEF', False)
-    if okv:
-        # and on every path with value not UNDEF the write happens: the only guards are that test
-        others = [g for g in cfg.guard_texts(val_w[0]) if 'UNDEF' not in g[0] and 'is_ready' not in g[0]]
-        okv = not others and all(cfg.dominates(val_w[0], d) or
-                                 cfg.path_avoiding(cfg.entry, [d], avoid=val_w) is not None
-                                 for d in deliveries)
-        skip = cfg.path_avoiding(cfg.entry, deliveries, avoid=val_w)
-        if skip is not None:
-            okv = okv and any(n.kind == 'branch' and 'UNDEF' in norm(n.test.ast) for n in skip)
-    ck.ob(R2b, f"{send.fid} :: positional value", okv,
-          "data['value'] = value exactly when value is not UNDEF" if okv else
-          "the positional value is not stored as data['value'] exactly under `value is not UNDEF`",
-          send, val_w[0].ast if val_w else send.node)
-    okd = len(dcall.args) == 1 and norm(dcall.args[0]) == 'self._etype' and \
-        len(dcall.keywords) == 1 and dcall.keywords[0].arg is None and \
-        norm(dcall.keywords[0].value) == 'data' and recv(dcall) == 'self._dest'
-    ck.ob(R2b, f"{send.fid} :: delivery arguments", okd,
-          "self._dest.event(self._etype, **data)" if okd else
-          f"delivery call is `{norm(dcall)}`; expected self._dest.event(self._etype, **data)",
-          send, deliveries[0].ast)
+                    bad_keys.append(norm1(n.ast))
+        ck.ob(R2b, f"{send.fid} :: keys written", keys_ok,
+              "only data['value'] and data['source'] are written; nothing is removed" if keys_ok else
+              f"other data items are modified: {bad_keys}", send, send.node)
+        okv = len(val_w) == 1 and isinstance(val_w[0].ast, ast.Assign) and \
+            norm(val_w[0].ast.value) == 'value' and cfg.has_guard(val_w[0], 'value is UNDEF', False)
+        if okv:
+            # and on every path with value not UNDEF the write happens: the only guards are that test
+            others = [g for g in cfg.guard_texts(val_w[0]) if 'UNDEF' not in g[0] and 'is_ready' not in g[0]]
+            okv = not others and all(cfg.dominates(val_w[0], d) or
+                                     cfg.path_avoiding(cfg.entry, [d], avoid=val_w) is not None
+                                     for d in deliveries)
+            skip = cfg.path_avoiding(cfg.entry, deliveries, avoid=val_w)
+            if skip is not None:
+                okv = okv and any(n.kind == 'branch' and 'UNDEF' in norm(n.test.ast) for n in skip)
+        ck.ob(R2b, f"{send.fid} :: positional value", okv,
+              "data['value'] = value exactly when value is not UNDEF" if okv else
+              "the positional value is not stored as data['value'] exactly under `value is not UNDEF`",
+              send, val_w[0].ast if val_w else send.node)
+        okd = len(dcall.args) == 1 and norm(dcall.args[0]) == 'self._etype' and \
+            len(dcall.keywords) == 1 and dcall.keywords[0].arg is None and \
+            norm(dcall.keywords[0].value) == 'data' and recv(dcall) == 'self._dest'
+        ck.ob(R2b, f"{send.fid} :: delivery arguments", okd,
+              "self._dest.event(self._etype, **data)" if okd else
+              f"delivery call is `{norm(dcall)}`; expected self._dest.event(self._etype, **data)",
+              send, deliveries[0].ast)
 
-    # ------------------------------------------------------------------ R14.3
-    es = prog.func('block:Event.send')
-    ge = ck.cfg(es.fid, 'M0')
-    sw_nodes = nodes_where(ge, lambda n: n.kind == 'stmt' and any(
-        norm(t.value) == 'data' and is_const(t.slice, 'source') for t, k, s in subscript_writes(n.ast)))
-    ok = len(sw_nodes) == 1 and isinstance(sw_nodes[0].ast, ast.Assign) and \
-        norm(sw_nodes[0].ast.value) == f"{(es.node.args.posonlyargs + es.node.args.args)[1].arg}.name"
-    ck.ob(R3, f"{es.fid} :: source overwritten", ok,
-          "data['source'] = <sender>.name (plain assignment: an inner 'source' item cannot survive)"
-          if ok else "Event.send does not unconditionally assign data['source'] = source.name",
-          es, sw_nodes[0].ast if sw_nodes else es.node)
-    if sw_nodes:
-        s0 = sw_nodes[0]
-        loops = nodes_where(ge, lambda n: n.kind == 'for' and 'self._filters' in norm(n.ast.iter),
-                            kinds=('for',))
-        dests = nodes_calling(ge, 'event')
-        cond = [gt for gt in ge.guard_texts(s0)]
-        # guards that only lead to raise on the other side are fine; require that the node
-        # dominates the filter loop and the delivery
-        ok = bool(loops) and bool(dests) and all(ge.dominates(s0, x) for x in loops + dests)
-        ck.ob(R3, f"{es.fid} :: before filters and delivery", ok,
-              "the assignment dominates the filter loop and the delivery" if ok else
-              "a filter or the destination can see the event before 'source' is set", es, s0.ast)
-    binit = prog.func('block:Block.__init__')
-    gb = ck.cfg(binit.fid, 'M0')
-    res_ok = any(isinstance(n.ast, ast.Raise) and gb.has_guard(n, "name.startswith('_')", True)
-                 and gb.has_guard(n, '_reserved', False) for n in gb.nodes if n.kind == 'stmt')
-    kwonly = any(a.arg == '_reserved' for a in binit.node.args.kwonlyargs)
-    ck.ob(R3, f"{binit.fid} :: underscore names refused", res_ok and kwonly,
-          "a name starting with '_' raises unless the keyword-only _reserved flag is set"
-          if res_ok and kwonly else
-          "Block.__init__ does not refuse names starting with '_' without _reserved", binit,
-          binit.node)
-    # the name that is checked is the name that is stored
-    name_w = nodes_where(gb, lambda n: isinstance(n.ast, (ast.Assign, ast.AnnAssign)) and
-                         norm(getattr(n.ast, 'target', None) or n.ast.targets[0]) == 'self.name')
-    okn = bool(name_w) and all(norm(w.ast.value) == 'name' for w in name_w)
-    ck.ob(R3, f"{binit.fid} :: checked name is stored", okn,
-          "self.name = name (the checked value)" if okn else "self.name is not the checked value",
-          binit, name_w[0].ast if name_w else binit.node)
+    with ck.section('R14.3'):
+        # ------------------------------------------------------------------ R14.3
+        es = prog.func('block:Event.send')
+        ge = ck.cfg(es.fid, 'M0')
+        sw_nodes = nodes_where(ge, lambda n: n.kind == 'stmt' and any(
+            norm(t.value) == 'data' and is_const(t.slice, 'source') for t, k, s in subscript_writes(n.ast)))
+        ok = len(sw_nodes) == 1 and isinstance(sw_nodes[0].ast, ast.Assign) and \
+            norm(sw_nodes[0].ast.value) == f"{(es.node.args.posonlyargs + es.node.args.args)[1].arg}.name"
+        ck.ob(R3, f"{es.fid} :: source overwritten", ok,
+              "data['source'] = <sender>.name (plain assignment: an inner 'source' item cannot survive)"
+              if ok else "Event.send does not unconditionally assign data['source'] = source.name",
+              es, sw_nodes[0].ast if sw_nodes else es.node)
+        if sw_nodes:
+            s0 = sw_nodes[0]
+            loops = nodes_where(ge, lambda n: n.kind == 'for' and 'self._filters' in norm(n.ast.iter),
+                                kinds=('for',))
+            dests = nodes_calling(ge, 'event')
+            cond = [gt for gt in ge.guard_texts(s0)]
+            # guards that only lead to raise on the other side are fine; require that the node
+            # dominates the filter loop and the delivery
+            ok = bool(loops) and bool(dests) and all(ge.dominates(s0, x) for x in loops + dests)
+            ck.ob(R3, f"{es.fid} :: before filters and delivery", ok,
+                  "the assignment dominates the filter loop and the delivery" if ok else
+                  "a filter or the destination can see the event before 'source' is set", es, s0.ast)
+        binit = prog.func('block:Block.__init__')
+        gb = ck.cfg(binit.fid, 'M0')
+        res_ok = any(isinstance(n.ast, ast.Raise) and gb.has_guard(n, "name.startswith('_')", True)
+                     and gb.has_guard(n, '_reserved', False) for n in gb.nodes if n.kind == 'stmt')
+        kwonly = any(a.arg == '_reserved' for a in binit.node.args.kwonlyargs)
+        ck.ob(R3, f"{binit.fid} :: underscore names refused", res_ok and kwonly,
+              "a name starting with '_' raises unless the keyword-only _reserved flag is set"
+              if res_ok and kwonly else
+              "Block.__init__ does not refuse names starting with '_' without _reserved", binit,
+              binit.node)
+        # the name that is checked is the name that is stored
+        name_w = nodes_where(gb, lambda n: isinstance(n.ast, (ast.Assign, ast.AnnAssign)) and
+                             norm(getattr(n.ast, 'target', None) or n.ast.targets[0]) == 'self.name')
+        okn = bool(name_w) and all(norm(w.ast.value) == 'name' for w in name_w)
+        ck.ob(R3, f"{binit.fid} :: checked name is stored", okn,
+              "self.name = name (the checked value)" if okn else "self.name is not the checked value",
+              binit, name_w[0].ast if name_w else binit.node)
 
-    # _reserved=True creation sites
-    n_sites = 0
-    for fi in prog.pkg_funcs(include_demo=True):
-        g = None
-        for call in [x for x in own_nodes(fi.node) if isinstance(x, ast.Call)]:
-            kv = kw(call, '_reserved')
-            if kv is None:
-                continue
-            if isinstance(kv, ast.Constant) and kv.value is False:
-                continue
-            n_sites += 1
-            g = g or ck.cfg(fi.fid, 'M1')
-            nodes = g.node_of(call)
-            ck.need(R3, nodes, f"cannot locate {norm1(call)} in the CFG of {fi.fid}")
-            node = nodes[0]
-            ok, why = _cannot_be_ext(ck, fi, g, node, call.args[0] if call.args else None)
-            ck.ob(R3, f"{fi.fid} :: {call_name(call)}(.., _reserved=True)", ok, why, fi, call)
-    ck.need(R3, n_sites >= 1, "no _reserved=True creation site found")
-    # automatic names
-    bad_cls = [c.qual for c in prog.classes.values() if c.name == 'ext']
-    auto = nodes_where(gb, lambda n: isinstance(n.ast, ast.Assign) and
-                       norm(n.ast.targets[0]) == 'prefix')
-    okauto = not bad_cls and bool(auto) and "type(self).__name__" in norm(auto[0].ast.value)
-    ck.ob(R3, f"{binit.fid} :: automatic names", okauto,
-          "automatic names are '_' + class name + '_' + n and no class is named 'ext'"
-          if okauto else f"automatic names may collide with the '_ext_' prefix: {bad_cls}",
-          binit, auto[0].ast if auto else binit.node)
+        # _reserved=True creation sites
+        n_sites = 0
+        for fi in prog.pkg_funcs(include_demo=True):
+            g = None
+            for call in [x for x in own_nodes(fi.node) if isinstance(x, ast.Call)]:
+                kv = kw(call, '_reserved')
+                if kv is None:
+                    continue
+                if isinstance(kv, ast.Constant) and kv.value is False:
+                    continue
+                n_sites += 1
+                g = g or ck.cfg(fi.fid, 'M1')
+                nodes = g.node_of(call)
+                ck.need(R3, nodes, f"cannot locate {norm1(call)} in the CFG of {fi.fid}")
+                node = nodes[0]
+                ok, why = _cannot_be_ext(ck, fi, g, node, call.args[0] if call.args else None)
+                ck.ob(R3, f"{fi.fid} :: {call_name(call)}(.., _reserved=True)", ok, why, fi, call)
+        ck.need(R3, n_sites >= 1, "no _reserved=True creation site found")
+        # automatic names
+        bad_cls = [c.qual for c in prog.classes.values() if c.name == 'ext']
+        auto = nodes_where(gb, lambda n: isinstance(n.ast, ast.Assign) and
+                           norm(n.ast.targets[0]) == 'prefix')
+        okauto = not bad_cls and bool(auto) and "type(self).__name__" in norm(auto[0].ast.value)
+        ck.ob(R3, f"{binit.fid} :: automatic names", okauto,
+              "automatic names are '_' + class name + '_' + n and no class is named 'ext'"
+              if okauto else f"automatic names may collide with the '_ext_' prefix: {bad_cls}",
+              binit, auto[0].ast if auto else binit.node)
 
 
 def _incompatible(lit: str) -> bool:
